@@ -229,7 +229,8 @@ def check_design(spec, ctx, props, scheduler="eager"):
             if ms["iw"] and ms["nonexcl"] and ms.get("combiner"):
                 acc = z3.BitVecVal(0, ms["iw"])
                 for s in sites:
-                    term = z3.If(act[s.idx], g(s.arg), z3.BitVecVal(0, ms["iw"]))
+                    arg_s = g(s.arg) + 1 if ms["combiner"] == "sumcnt" else g(s.arg)
+                    term = z3.If(act[s.idx], arg_s, z3.BitVecVal(0, ms["iw"]))
                     acc = (acc | term) if ms["combiner"] == "or" else (acc + term)
                 prove(f"C05 nonexclusive {ms['name']} sees {ms['combiner']}-combination of exactly its active calls", z3.Implies(runM[mi], din == acc))
             if ms["ow"]:
